@@ -402,6 +402,50 @@ fn case_calls1<T: Elem>(case: u64, args: &Args, ev: &mut Ev) {
                 }
             }
         }
+        // batches with repeated query values: the strategy must be called for every element
+        for (kind, shape) in [(QKind::S1, vec![6usize]), (QKind::Dyn, vec![6]), (QKind::S2, vec![2, 3])] {
+            let a = T::of(0.5);
+            let b = T::of(1.5);
+            let vals = vec![a, b, b, b, a, a];
+            let qa = Query::from_vec(vals.clone(), &shape, kind);
+            h.reset_calls();
+            match interp.many(&qa) {
+                Outcome::Ok(_) => {
+                    ev.add("repeated_value_batches", 1);
+                    if !check_calls(ev, case, &format!("interp_array({}) with repeated values", qa.name()), &h.take_calls(), &vals, None, &lane_shape, &replay) {
+                        return;
+                    }
+                }
+                Outcome::Untypeable => continue,
+                o => {
+                    ev.violation("C18:interp_array-failed", &o.detail(), case, replay.clone());
+                    return;
+                }
+            }
+            for fail_at in 0..vals.len() {
+                h.reset_calls();
+                {
+                    let mut st = h.lock();
+                    st.fail_at = Some(fail_at);
+                    st.fail_msg = format!("injected at repeated value #{fail_at}");
+                }
+                let o = interp.many(&qa);
+                h.lock().fail_at = None;
+                ev.add("injected_interp_errors", 1);
+                match &o {
+                    Outcome::Err(k, msg) if k == "OutOfBounds" && *msg == format!("injected at repeated value #{fail_at}") => {}
+                    other => {
+                        ev.violation(
+                            "C18:interp-error-not-propagated",
+                            &format!("interp_array({}) with repeated values: strategy failed at call {fail_at} but the caller got {}", qa.name(), other.detail()),
+                            case,
+                            replay.clone(),
+                        );
+                        return;
+                    }
+                }
+            }
+        }
         for kind in [QKind::S0, QKind::S1, QKind::S2, QKind::S3, QKind::S4, QKind::Dyn] {
             let rank = kind.static_rank().unwrap_or_else(|| 1 + rng.below(2));
             let mut dims = vec![2usize, 3, 1, 2];
@@ -541,6 +585,19 @@ fn case_calls2<T: Elem>(case: u64, args: &Args, ev: &mut Ev) {
                 ev.add("is_in_range_checked", 1);
                 if got.as_ok() != Some(&want) {
                     ev.violation("C18:is_in_range", &format!("2-D is_in_{}_range({q:?}) != {want}", if is_x { "x" } else { "y" }), case, replay.clone());
+                    return;
+                }
+            }
+        }
+        for (kind, shape) in [(QKind::S1, vec![5usize]), (QKind::S2, vec![5, 1])] {
+            let vx = vec![T::of(1.0), T::of(2.0), T::of(2.0), T::of(2.0), T::of(1.0)];
+            let vy = vec![T::of(3.0), T::of(3.0), T::of(3.0), T::of(4.0), T::of(3.0)];
+            let qx = Query::from_vec(vx.clone(), &shape, kind);
+            let qy = Query::from_vec(vy.clone(), &shape, kind);
+            h.reset_calls();
+            if let Outcome::Ok(_) = interp.many(&qx, &qy) {
+                ev.add("repeated_value_batches", 1);
+                if !check_calls(ev, case, &format!("2-D interp_array({}) with repeated values", qx.name()), &h.take_calls(), &vx, Some(&vy), &lane_shape, &replay) {
                     return;
                 }
             }
